@@ -19,6 +19,7 @@ import (
 	"os"
 	"path/filepath"
 	"strings"
+	"sync/atomic"
 	"time"
 
 	"github.com/q191201771/lal/pkg/base"
@@ -789,6 +790,40 @@ func runKick(r *vk.Run) {
 		r.Violation("blacklist/other-address", "another address lost access", "blacklist")
 	}
 	r.Class("blacklist")
+	// the ban lasts as long as it was asked for: with the clock of the black list in our hands (its only use
+	// of time.Now goes through a hook), an entry of N seconds added at every sub-second phase refuses at
+	// every instant less than N seconds later and serves again from N+1 seconds on (in between the
+	// one-second resolution of the list decides)
+	var nowMs int64 = 1700000000000
+	logic.VerifNowFn = func() time.Time { return time.UnixMilli(atomic.LoadInt64(&nowMs)) }
+	defer func() { logic.VerifNowFn = nil }()
+	ipn := 0
+	for _, phase := range []int64{0, 1, 100, 500, 900, 999} {
+		for _, n := range []int{1, 2, 5} {
+			for _, e := range []int64{0, 1, 500, int64(n)*1000 - 1000, int64(n)*1000 - 600, int64(n)*1000 - 100, int64(n)*1000 - 1, int64(n)*1000 + 1000, int64(n)*1000 + 1500, int64(n)*1000 + 5000} {
+				if e < 0 {
+					continue
+				}
+				r.Eval(1)
+				ipn++
+				ip := fmt.Sprintf("10.9.%d.%d", ipn/250, ipn%250+1)
+				t0 := int64(1700000000000) + int64(ipn)*7000 + phase
+				atomic.StoreInt64(&nowMs, t0)
+				w.SM.CtrlAddIpBlacklist(base.ApiCtrlAddIpBlacklistReq{Ip: ip, DurationSec: n})
+				atomic.StoreInt64(&nowMs, t0+e)
+				rec := hlsGet(w, "/hls/b.m3u8", ip+":5")
+				served := rec != nil && rec.Code == 200 && rec.Body.String() == playlist
+				what := fmt.Sprintf("entry of %d s added %d ms into a second, request %d ms later", n, phase, e)
+				if e < int64(n)*1000 && served {
+					r.Violation("blacklist/ban-ends-early", what+": the playlist was served", "blacklist")
+				}
+				if e >= int64(n)*1000+1000 && !served {
+					r.Violation("blacklist/ban-outlasts-expiry", what+": still refused", "blacklist")
+				}
+				r.Class(fmt.Sprintf("blacklist/expiry/before=%v", e < int64(n)*1000))
+			}
+		}
+	}
 }
 
 // runHlsSubSession: with hls.sub_session_hash_key set, the first authorised playlist request of a client
